@@ -1,9 +1,9 @@
 SPECIFICATION Spec
 CONSTANTS
-  NI = 2
-  Versions <- Versions2
-  KindNames = {"nested", "flat"}
-  MaxBatches = 3
+  NI = 1
+  Versions <- Versions3
+  KindNames = {"nested", "outer", "inner"}
+  MaxBatches = 4
   MaxMerges = 1
   PairMerges = FALSE
   KeepHist = TRUE
